@@ -10,14 +10,16 @@ package labelindex
 //@ -- reference count's 0 -> 1 transition and a member-removed event exactly on 1 -> 0, for the IP set and member
 //@ -- whose count is being changed.
 //@ ghost c04Set string
+//@ -- (the count may be struck off before or after the event is emitted: either the member is still recorded with
+//@ -- count 1, or it is already gone; in both cases the decremented count computed from the table is 0)
 //@ func (*SelectorAndNamedPortIndex).scanEndpointAgainstIPSets
 //@   property C04
 //@   option safety off
-//@   ghost at call onMemberRemoved: check arg1 == ipSetID && arg2 == oldMember && old(oldMember in ipSetData.memberToRefCount) && old(ipSetData.memberToRefCount[oldMember]) == 1
+//@   ghost at call onMemberRemoved: check arg1 == ipSetID && arg2 == oldMember && newRefCount == 0 && ((old(oldMember in ipSetData.memberToRefCount) && old(ipSetData.memberToRefCount[oldMember]) == 1) || !old(oldMember in ipSetData.memberToRefCount))
 //@ func (*SelectorAndNamedPortIndex).DeleteEndpoint
 //@   property C04
 //@   option safety off
-//@   ghost at call onMemberRemoved: check arg1 == ipSetID && arg2 == oldMember && old(oldMember in ipSetData.memberToRefCount) && old(ipSetData.memberToRefCount[oldMember]) == 1
+//@   ghost at call onMemberRemoved: check arg1 == ipSetID && arg2 == oldMember && newRefCount == 0 && ((old(oldMember in ipSetData.memberToRefCount) && old(ipSetData.memberToRefCount[oldMember]) == 1) || !old(oldMember in ipSetData.memberToRefCount))
 //@ -- (the body of the range-over-func loop in scanEndpointAgainstIPSets)
 //@ func (*SelectorAndNamedPortIndex).scanEndpointAgainstIPSets$1
 //@   property C04
